@@ -367,12 +367,12 @@ impl Prop for P {
             gens::points(1..=tier.pick(6, 12), gens::fl_any()),
             0..BUDGETS.len(),
         )
-            .prop_map(|(dag, outs, points, budget)| Case {
+            .prop_map(|(dag, outs, points, budget)| { let points = gens::coincide(&dag, points); Case {
                 dag,
                 outs,
                 points,
                 budget,
-            })
+            }})
             .boxed()
     }
 
